@@ -66,6 +66,18 @@ func (p *DynamicProxy) ServeTCP(in net.Conn) error {
 	}
 	defer out.Close()
 
+	// enable PROXY protocol support on outbound connection
+	if t.ProxyProto {
+		err := WriteProxyHeader(out, in)
+		if err != nil {
+			log.Print("[WARN] tcp: write proxy protocol header failed. ", err)
+			if p.ConnFail != nil {
+				p.ConnFail.Add(1)
+			}
+			return err
+		}
+	}
+
 	err = tunnel(in, out, in, t.RxCounter, t.TxCounter)
 	if err != nil && err != io.EOF {
 		log.Print("[WARN]: tcp:  ", err)
